@@ -3,6 +3,14 @@ import json, sys
 pid, wt, out = sys.argv[1], sys.argv[2], sys.argv[3]
 n = sys.argv[4] if len(sys.argv) > 4 else "two"
 p = [json.loads(l) for l in open('/verif/properties.jsonl') if json.loads(l)['id'] == pid][0]
+import glob, os
+_k = []
+for d in sorted(glob.glob('/verif/seeded/%s-*' % pid)):
+    try:
+        _k.append("  - " + json.load(open(d + '/meta.json'))['summary'][:260].replace('\n', ' '))
+    except Exception:
+        pass
+known = ("Changes of this kind were already produced by others; yours must be DIFFERENT (another site, another mechanism):\n" + "\n".join(_k)) if _k else ""
 print(f"""You are helping to test a verification effort by producing realistic *property-breaking* code changes.
 
 Repository: a Go library (orbs-network/lean-helix-go: Lean Helix, a PBFT-style BFT block consensus with weighted committees, view changes, block proofs).
@@ -25,7 +33,8 @@ Task: produce {n} *different* source changes (each independent, each applied to 
   3. the violation needs something specific to manifest - an unusual input (boundary value, huge value, duplicate, empty, crafted message), a multi-step sequence of operations, a particular interleaving, or two cooperating sites that each look fine alone - NOT something ordinary use exposes at once. Prefer subtle, plausible-looking edits (an off-by-one, a dropped or weakened check, a swapped comparison or argument, a 'refactor' or 'optimisation' that is almost right) over blatant sabotage; a change a tired reviewer could approve.
   4. you provide a demonstration: a Go test file (or small program) that FAILS with your change applied and PASSES on the unchanged checkout. In-package tests (same package, file name ending _test.go) may call unexported functions. The demonstration must exercise the real code.
 
-Do not edit existing test files, go.mod, or files named contracts_verif.go (they are comment-only and irrelevant). Keep each change small (a few lines).
+Do not edit existing test files, go.mod, or files named contracts_verif.go (they are comment-only and irrelevant). Keep each change small (a few lines). Do not use `git stash` (stashes are shared between worktrees of one repository and other people work in sibling worktrees).
+{known}
 
 Deliverables, for change k = 1, 2, ... write into {out}/k/:
   - patch.diff : output of `git -C {wt} diff` for that change alone (relative to the clean checkout; must apply with `git apply` at the repo root)
